@@ -644,6 +644,12 @@ def run(ctx):
     # R6.12: an error's paths are read again after it has been handed out (absolute_path, json_path, a second tree): whatever
     # consumes errors -- ErrorTree in particular -- leaves their path deques as they are
     rule_errors_untouched(ctx)
+    # R6.13/R6.14: the schema recorded with an error is the one its schema path designates only if references were resolved in the
+    # right scope: nothing keeps an abandoned error iterator (and the scopes it entered) alive, and no memo answers a reference
+    # without looking at the scope it is resolved in
+    from .c07 import rule_no_held_iterator
+    rule_no_held_iterator(ctx, "R6.13")
+    scope.rule_memo_scope_free(ctx, "R6.14")
 
 
 def rule_errors_untouched(ctx, rid="R6.12"):
